@@ -229,8 +229,8 @@ _PATCH = ['generate_ordered_map_to_left_right_unique_streamed', 'generate_ordere
 
 class _patched:
     """vary the chunk size the Session call sites hard-wire (default 1<<20) without editing the repository"""
-    def __init__(self, cs):
-        self.cs = cs
+    def __init__(self, cs, csf=None):
+        self.cs = _scal(cs, csf)
 
     def __enter__(self):
         self.orig = {n: getattr(_ops, n) for n in _PATCH}
@@ -264,6 +264,56 @@ def _arg(x, grp):
 def _exc_name(e):
     from harness.worker import exc_name
     return exc_name(e)
+
+
+# ---- the TYPE FORM of scalar arguments.  The model sees the truth value of a uniqueness hint / the integer value of a
+# chunk size or invalid marker; the real call gets that value in one of the forms a script produces: a Python bool, a
+# numpy bool (np.True_ / np.False_), the result of np.all(keys[1:] != keys[:-1]), a Python or numpy integer 0/1, a
+# 0-d boolean array.  Every one of them is == True / == False (Model/FlagForm.v: py_eq_False), none but the first IS
+# True / False.
+FLAGF = ['b', 'nb', 'all', 'i', 'ni', 'u8', 'a0']
+
+
+def _flagv(v, form, keys=None):
+    np = _np
+    v = bool(v)
+    if form == 'b':
+        return v
+    if form == 'nb':
+        return np.bool_(v)
+    if form == 'all':
+        # as a script computes the hint from the sorted key column (a numpy bool); a hint that says less than the
+        # column allows (False for a column that happens to be unique) is passed as the numpy bool of its value
+        k = np.asarray(keys if keys is not None else [])
+        c = np.all(k[1:] != k[:-1])
+        return c if bool(c) == v else np.bool_(v)
+    if form == 'i':
+        return int(v)
+    if form == 'ni':
+        return np.int64(v)
+    if form == 'u8':
+        return np.uint8(v)
+    if form == 'a0':
+        return np.asarray(v)
+    raise ValueError(form)
+
+
+def _flags(case):
+    """(left flag, right flag) of the case in their type forms (case['ff'] = [form of lu, form of ru])"""
+    ff = case.get('ff') or ['b', 'b']
+    return _flagv(case['lu'], ff[0], case['L']), _flagv(case['ru'], ff[1], case['R'])
+
+
+SCALF = {'i': int, 'ni': lambda v: _np.int64(v), 'n32': lambda v: _np.int32(v), 'np': lambda v: _np.intp(v)}
+
+
+def _scal(v, form):
+    return v if v is None else SCALF[form or 'i'](v)
+
+
+def _invv(case):
+    """the invalid marker of a kernel call: numpy int64 scalar (default) or a Python int"""
+    return int(case['inv']) if case.get('invf') == 'py' else _np.int64(case['inv'])
 
 
 # ----------------------------------------------------------------------------- run: the real code
@@ -303,7 +353,7 @@ def _run(case, op, np, ops, S):
     if op in ('klru', 'klbu'):
         f = ops.generate_ordered_map_to_left_right_unique if op == 'klru' else ops.generate_ordered_map_to_left_both_unique
         res = np.zeros(case['n'], dtype=np.int64)
-        u = f(_arr(case['L']), _arr(case['R']), res, np.int64(case['inv']))
+        u = f(_arr(case['L']), _arr(case['R']), res, _invv(case))
         return [[int(x) for x in res], 1 if u else 0]
     if op == 'kisz':
         return int(ops.ordered_inner_map_result_size(_arr(case['L']), _arr(case['R'])))
@@ -318,19 +368,19 @@ def _run(case, op, np, ops, S):
         L, R = _nfield(case['L'], 'int64'), _nfield(case['R'], 'int64')
         if case.get('dst', 'f') == 'f':
             m = _nfield(None, 'int64')
-            u = ops.generate_ordered_map_to_left_right_unique_streamed_old(L, R, m, np.int64(case['inv']), chunksize=case['cs'])
+            u = ops.generate_ordered_map_to_left_right_unique_streamed_old(L, R, m, _invv(case), chunksize=_scal(case['cs'], case.get('csf')))
             return [[int(x) for x in m.data[:]], 1 if u else 0]
         m = np.zeros(len(case['L']), dtype=np.int64)
-        u = ops.generate_ordered_map_to_left_right_unique_streamed_old(L, R, m, np.int64(case['inv']), chunksize=case['cs'])
+        u = ops.generate_ordered_map_to_left_right_unique_streamed_old(L, R, m, _invv(case), chunksize=_scal(case['cs'], case.get('csf')))
         return [[int(x) for x in m], 1 if u else 0]
     if op == 'kmvold':
         d, m = _nfield(case['data'], 'int32'), _nfield(case['map'], 'int64')
         if case.get('dst', 'f') == 'f':
             r = _nfield(None, 'int32')
-            ops.ordered_map_valid_stream_old(d, m, r, np.int64(case['inv']), chunksize=case['cs'])
+            ops.ordered_map_valid_stream_old(d, m, r, _invv(case), chunksize=_scal(case['cs'], case.get('csf')))
             return [int(x) for x in r.data[:]]
         r = np.zeros(len(case['map']), dtype=np.int32)
-        ops.ordered_map_valid_stream_old(d, m, r, np.int64(case['inv']), chunksize=case['cs'])
+        ops.ordered_map_valid_stream_old(d, m, r, _invv(case), chunksize=_scal(case['cs'], case.get('csf')))
         return [int(x) for x in r]
     if op == 'oml':
         return _run_oml(case, np, ops, S)
@@ -410,11 +460,11 @@ def _run_oml(case, np, ops, S):
         mp = np.zeros(len(case['L']), dtype=np.int64)
     elif mapk == 'f':
         mp = _reg(case, 'map', 0, lambda: _nfield(None, 'int64', h5))
-    lu, ru = bool(case['lu']), bool(case['ru'])
+    lu, ru = _flags(case)
     g = lambda x: _arg(x, grp)
     seq = list if case.get('lst') else tuple            # the payload / sink collections as lists
     gt = lambda t: None if t is None else seq(g(x) for x in t)
-    with _patched(case.get('cs')):
+    with _patched(case.get('cs'), case.get('csf')):
         if case.get('swap'):
             ret = S.ordered_merge_right(g(R), g(L), left_field_sources=gt(srcs), right_field_sinks=gt(sinks),
                                         right_to_left_map=g(mp), left_unique=ru, right_unique=lu)
@@ -449,9 +499,10 @@ def _run_omi(case, np, ops, S):
     elif form == 'fs':
         lsk = tuple(_nfield(None, d, h5) for d in ldt)
         rsk = tuple(_nfield(None, d, h5) for d in rdt)
+    lu, ru = _flags(case)
     ret = S.ordered_merge_inner(L, R, left_field_sources=ls, left_field_sinks=lsk,
                                 right_field_sources=rs, right_field_sinks=rsk,
-                                left_unique=bool(case['lu']), right_unique=bool(case['ru']))
+                                left_unique=lu, right_unique=ru)
     if ret is None:
         r = None
     elif len(ret) == 2 and isinstance(ret[0], tuple):
@@ -882,6 +933,17 @@ def features(case, model):
         allv = [v for c in case.get('srcs', []) + case.get('lsrcs', []) + case.get('rsrcs', []) for v in c]
         if any(abs(v) > (1 << 53) for v in allv): f.append('payload-value-beyond-2^53')
         if any(_is_s(d) for d in dts): f.append('fixed-width-string-payload')
+    if case.get('ff'):
+        ff = case['ff']
+        f.append('flagform:lu=%s' % ff[0]); f.append('flagform:ru=%s' % ff[1])
+        if ff[0] != 'b' and not case['lu']: f.append('flag:non-bool-falsy-left-hint')
+        if ff[1] != 'b' and not case['ru']: f.append('flag:non-bool-falsy-right-hint')
+        if ff[0] != 'b' and not case['lu'] and len(set(case['L'])) < len(case['L']):
+            f.append('flag:non-bool-falsy-hint-with-duplicates-on-that-side')
+        if ff[1] != 'b' and not case['ru'] and len(set(case['R'])) < len(case['R']):
+            f.append('flag:non-bool-falsy-hint-with-duplicates-on-that-side')
+    if case.get('csf'): f.append('chunksize-form:' + case['csf'])
+    if case.get('invf'): f.append('invalid-marker-form:' + case['invf'])
     if case.get('km'): f.append('keymap:' + case['km'])
     if case.get('grp'): f.append('h5py-group-arguments')
     if case.get('lst'): f.append('payloads-and-sinks-as-lists')
@@ -1181,7 +1243,7 @@ def gen(tier, rng):
         yield {'op': 'omi', 'L': L, 'R': R, 'lu': 0, 'ru': 0, 'n': _n_inner(L, R), 'form': rng.choice(forms4),
                'lsrcs': [_src(len(L), 0)], 'rsrcs': [_src(len(R), 5)]}
     # ---- element types, key dtypes, histories of calls on one Session, aliased arguments, change-directed sizes
-    for g in (_gen_typed, _gen_hist, _gen_alias, _gen_hot, _gen_changed):
+    for g in (_gen_typed, _gen_hist, _gen_alias, _gen_flagforms, _gen_hot, _gen_changed):
         for c in g(big, rng):
             yield c
 
@@ -1561,6 +1623,158 @@ def _gen_alias(big, rng):
                        'form': form, 'mapk': mapk, 'cs': cs, 'km': 'i64', 'reg': {'L': 'k', 'R': 'k', 'srcs': [None, 'k']}}
 
 
+NONSTREAM = [('a', 'n'), ('a', 'a'), ('as', 'n'), ('f', 'n'), ('fs', 'n'), ('f', 'f'), ('fs', 'a')]
+
+
+def _gen_flagforms(big, rng):
+    """the TYPE FORM of scalar arguments: truthful uniqueness hints as numpy booleans / np.all(...) results / Python and
+    numpy integers 0/1 / 0-d arrays, chunk sizes as numpy integers, invalid markers as Python ints — through every entry
+    point that takes them.  The expected value only depends on the truth value (Props/C19_flags.v)."""
+    from harness import hot
+    cnt = 0
+    allf = FLAGF
+    pairs = [(a, b) for a in allf for b in allf if (a, b) != ('b', 'b')]
+    # (1) ordered_merge_left / _right: every (left form, right form) x every argument form (streamed at 3 chunk sizes +
+    # the 7 in-memory forms) x the truthful flag values, on key pairs with runs of equal left keys / strictly increasing
+    oforms = [('fs', 'f', 1), ('fs', 'f', 2), ('fs', 'f', None)] + [(f, m, None) for f, m in NONSTREAM]
+    kps = [([0, 0, 1, 3], [0, 1, 2]), ([0, 1, 1, 1, 2, 4, 4], [1, 2, 3, 4]), ([1, 2, 3], [0, 2, 3, 5])]
+    for fl, fr in pairs:
+        for form, mapk, cs in oforms:
+            for L, R in kps:
+                for lu in ((0, 1) if _strict(L) else (0,)):
+                    for swap in ((0, 1) if big else (cnt % 2,)):
+                        cnt += 1
+                        srcs = [_src(len(R), c) for c in range(2 if cnt % 5 == 0 else 1)]
+                        yield {'op': 'oml', 'L': L, 'R': R, 'lu': lu, 'ru': 1, 'srcs': srcs, 'form': form, 'mapk': mapk, 'cs': cs,
+                               'swap': swap, 'ff': [fl, fr], 'kt': ('int32', 'int64')[cnt % 2]}
+    # (2) the exhaustive key pairs again, the flag forms rotating: one streamed call (chunk size rotating) and one
+    # in-memory form per (pair, flag value)
+    n3, k3 = (5, 4) if big else (4, 4)
+    seqs3 = list(_nondecr(n3, k3))
+    for L in seqs3:
+        for R in seqs3:
+            if not _strict(R):
+                continue
+            for lu in ((0, 1) if _strict(L) else (0,)):
+                cnt += 1
+                fl, fr = pairs[cnt % len(pairs)]
+                base = {'op': 'oml', 'L': L, 'R': R, 'lu': lu, 'ru': 1, 'srcs': [_src(len(R), 0)], 'ff': [fl, fr]}
+                cs = (list(range(1, n3 + 2)) + [None])[cnt % (n3 + 2)]
+                yield dict(base, form='fs', mapk='f', cs=cs, swap=cnt % 2, csf=(None, 'ni', None, 'np')[cnt % 4] if cs else None)
+                form, mapk = NONSTREAM[(cnt // 2) % 7]
+                yield dict(base, form=form, mapk=mapk, cs=None, swap=(cnt // 2) % 2)
+    # (3) hints the call rejects (right key not unique), in every form: the same ValueError as with Python bools
+    for fl in allf:
+        for fr in allf:
+            for lu in (0, 1):
+                cnt += 1
+                L, R = ([0, 1, 2], [1, 1, 2]) if cnt % 2 else ([0, 0, 2], [0, 2])
+                if lu and not _strict(L):
+                    L = [0, 1, 2]
+                for form, mapk, cs in (('a', 'n', None), ('fs', 'f', 2), ('fs', 'n', None)):
+                    yield {'op': 'oml', 'L': L, 'R': R, 'lu': lu, 'ru': 0, 'srcs': [_src(len(R), 0)], 'form': form, 'mapk': mapk,
+                           'cs': cs, 'swap': cnt % 2, 'ff': [fl, fr]}
+    # (4) ordered_merge_inner: every (left form, right form) x 4 argument forms x truthful flag combinations, duplicates on
+    # both sides (cartesian blocks), on one side, on none
+    ikps = [([0, 1, 1, 3], [1, 1, 2, 3]), ([0, 2, 4], [0, 1, 1, 2, 2]), ([1, 1, 2], [1, 2]), ([0, 2, 4], [0, 1, 2, 4])]
+    for fl, fr in pairs:
+        for form in ('a', 'as', 'f', 'fs'):
+            for L, R in ikps:
+                for lu in ((0, 1) if _strict(L) else (0,)):
+                    for ru in ((0, 1) if _strict(R) else (0,)):
+                        cnt += 1
+                        yield {'op': 'omi', 'L': L, 'R': R, 'lu': lu, 'ru': ru, 'n': _n_inner(L, R), 'form': form, 'ff': [fl, fr],
+                               'lsrcs': [_src(len(L), c) for c in range(2 if cnt % 4 == 0 else 1)], 'rsrcs': [_src(len(R), 5)]}
+    seqs4 = list(_nondecr(5 if big else 4, 3))
+    for L in seqs4:
+        for R in seqs4:
+            for lu in ((0, 1) if _strict(L) else (0,)):
+                for ru in ((0, 1) if _strict(R) else (0,)):
+                    cnt += 1
+                    fl, fr = pairs[cnt % len(pairs)]
+                    yield {'op': 'omi', 'L': L, 'R': R, 'lu': lu, 'ru': ru, 'n': _n_inner(L, R), 'form': ['a', 'as', 'f', 'fs'][cnt % 4],
+                           'ff': [fl, fr], 'lsrcs': [_src(len(L), 0)], 'rsrcs': [_src(len(R), 5)]}
+    # (5) typed payloads, HDF5-backed fields, h5py.Group arguments, key dtypes; histories: the same call with numpy flags
+    # and then with Python flags (and the other way round) on shared argument objects
+    for d in (DTYPES if big else ('int8', 'int64', 'uint64', 'float64', 'bool', 'S3')):
+        for form, mapk, cs in TFORMS:
+            cnt += 1
+            fl, fr = pairs[(7 * cnt) % len(pairs)]
+            L, R = KP[cnt % len(KP)]
+            lu = cnt % 2 if _strict(L) else 0
+            kw = {}
+            if form in ('f', 'fs') and cnt % 3 == 0:
+                kw['h5'] = 1
+                if cnt % 2 == 0:
+                    kw['grp'] = 1
+            if cnt % 4 == 0:
+                kw['km'] = list(KMAPS)[cnt % len(KMAPS)]
+            c = _toml(L, R, [d, 'int64'], form, mapk, cs, lu=lu, swap=cnt % 2, ff=[fl, fr], **kw)
+            yield c
+            if cnt % 2:
+                c0 = dict(c, reg={'L': 'kL', 'R': 'kR', 'srcs': ['p0', 'p1']})
+                c1 = dict(c0); del c1['ff']
+                yield {'op': 'hist', 'calls': [c0, c1] if cnt % 4 == 1 else [c1, c0]}
+        for k, (L, R) in enumerate(ikps):
+            cnt += 1
+            fl, fr = pairs[(5 * cnt) % len(pairs)]
+            d2 = DTYPES[(DTYPES.index(d) + 5) % len(DTYPES)]
+            yield {'op': 'omi', 'typed': 1, 'L': L, 'R': R, 'lu': 0, 'ru': 1 if _strict(R) and cnt % 2 else 0, 'n': _n_inner(L, R),
+                   'form': ['a', 'as', 'f', 'fs'][cnt % 4], 'ldt': [d, d2], 'rdt': [d2], 'ff': [fl, fr], 'h5': 1 if cnt % 3 == 0 else 0,
+                   'lsrcs': [_tsrc(len(L), d), _tsrc(len(L), d2, 4)], 'rsrcs': [_tsrc(len(R), d2, 1)]}
+    # (6) chunk sizes as numpy integers (the wrapped chunksize= defaults and ops.DEFAULT_CHUNKSIZE), streamed form and the
+    # deprecated helpers; invalid markers of the kernels as Python ints
+    for csf in ('ni', 'n32', 'np'):
+        for L, R in KP:
+            for cs in (1, 2, 3, 5):
+                cnt += 1
+                yield dict({'op': 'oml', 'L': L, 'R': R, 'lu': cnt % 2 if _strict(L) else 0, 'ru': 1, 'srcs': [_src(len(R), 0)],
+                            'form': 'fs', 'mapk': 'f', 'cs': cs, 'swap': cnt % 2, 'csf': csf},
+                           **({'ff': list(pairs[cnt % len(pairs)])} if cnt % 2 else {}))
+                yield _toml(L, R, [DTYPES[cnt % len(DTYPES)], 'float64'], 'fs', 'f', cs, csf=csf, h5=cnt % 2)
+    seqs2 = list(_nondecr(3, 3))
+    for L in seqs2:
+        for R in seqs2:
+            cnt += 1
+            if _strict(R):
+                yield {'op': 'klru', 'L': L, 'R': R, 'n': len(L), 'inv': (INV64, -1)[cnt % 2], 'invf': 'py'}
+                if _strict(L):
+                    yield {'op': 'klbu', 'L': L, 'R': R, 'n': len(L), 'inv': (INV64, -1)[cnt % 2], 'invf': 'py'}
+                yield {'op': 'ksold', 'L': L, 'R': R, 'cs': 1 + cnt % 3, 'inv': INV64, 'dst': 'fa'[cnt % 2],
+                       'csf': ('ni', 'n32', 'np')[cnt % 3], 'invf': ('py', None)[cnt % 2]}
+    for nm in range(0, 4):
+        for mp in itertools.product([0, 1, 2, None], repeat=nm):
+            vs = [x for x in mp if x is not None]
+            if any(a > b for a, b in zip(vs, vs[1:])):
+                continue
+            cnt += 1
+            yield {'op': 'kmvold', 'data': [10, 20, 30], 'map': [INV64 if x is None else x for x in mp], 'cs': 1 + cnt % 3,
+                   'inv': INV64, 'dst': 'fa'[cnt % 2], 'csf': ('ni', 'n32', 'np')[cnt % 3], 'invf': ('py', None)[(cnt // 3) % 2]}
+    # (7) change-directed: a changed source file buys random longer cases with random scalar forms
+    if hot.changed():
+        for _ in range(3000 if big else 800):
+            cs = rng.choice([1, 2, 3, 4, 5, 8, None])
+            key, L, R = 0, [], []
+            tl, tr = rng.randint(0, 16), rng.randint(0, 16)
+            while len(L) < tl:
+                key += rng.choice([1, 1, 2])
+                L.extend([key] * rng.choice([1, 1, 1, 2, 3]))
+            ff = [rng.choice(allf), rng.choice(allf)]
+            if rng.random() < 0.5:
+                key = 0
+                while len(R) < tr:
+                    key += rng.choice([1, 1, 2]); R.append(key)
+                form, mapk, cs_ = rng.choice(TFORMS)
+                yield _toml(L, R, [rng.choice(DTYPES) for _ in range(rng.choice([1, 2, 3]))], form, mapk,
+                            cs if (form, mapk) == ('fs', 'f') else None, lu=1 if _strict(L) and rng.random() < 0.5 else 0,
+                            swap=rng.randint(0, 1), ff=ff, csf=rng.choice([None, 'ni', 'np']))
+            else:
+                R = sorted(rng.randint(0, 12) for _ in range(tr))
+                yield {'op': 'omi', 'L': L, 'R': R, 'lu': 1 if _strict(L) and rng.random() < 0.5 else 0,
+                       'ru': 1 if _strict(R) and rng.random() < 0.5 else 0, 'n': _n_inner(L, R), 'form': rng.choice(['a', 'as', 'f', 'fs']),
+                       'ff': ff, 'lsrcs': [_src(len(L), 0)], 'rsrcs': [_src(len(R), 5)]}
+
+
 def _gen_hot(big, rng):
     """change-directed: a small integer literal that is new in the tree under test (harness/hot.py) is used as chunk size,
     column length, run length and number of payloads"""
@@ -1655,6 +1869,17 @@ def shrink(case):
         if len(calls) == 1:
             yield calls[0]
         return
+    for k in ('csf', 'invf'):
+        if case.get(k):
+            c = dict(case); del c[k]; yield c
+    if case.get('ff'):
+        ff = case['ff']
+        c = dict(case); del c['ff']; yield c                     # both flags as Python bools
+        for i in (0, 1):
+            if ff[i] != 'b':
+                yield dict(case, ff=[('b' if j == i else ff[j]) for j in (0, 1)])
+            elif ff[1 - i] not in ('b', 'nb'):
+                yield dict(case, ff=[('nb' if j != i else ff[j]) for j in (0, 1)])
     if case.get('typed') and case['op'] == 'oml' and len(case['srcs']) > 1:
         for i in range(len(case['srcs'])):
             c = dict(case)
@@ -1714,6 +1939,14 @@ def warmup():
         for lu in (0, 1):
             for form, mapk, cs in (('a', 'n', None), ('fs', 'f', 2)):
                 cases.append(_toml([1, 2], [2, 3], ['int32'], form, mapk, cs, km=km, lu=lu))
+    # numpy-integer chunk sizes (np.int32 is another numba argument type than int) and Python-int invalid markers
+    for csf in ('ni', 'n32'):
+        for lu in (0, 1):
+            cases.append(_toml([1, 2], [2, 3], ['int32'], 'fs', 'f', 2, lu=lu, csf=csf))
+        cases.append({'op': 'ksold', 'L': [1, 2], 'R': [2], 'cs': 1, 'inv': INV64, 'csf': csf, 'invf': 'py'})
+        cases.append({'op': 'kmvold', 'data': [1, 2], 'map': [0, 1], 'cs': 1, 'inv': INV64, 'csf': csf, 'invf': 'py'})
+    cases.append({'op': 'klru', 'L': [1, 2], 'R': [2], 'n': 2, 'inv': INV64, 'invf': 'py'})
+    cases.append({'op': 'klbu', 'L': [1, 2], 'R': [2], 'n': 2, 'inv': -1, 'invf': 'py'})
     for c in cases:
         try:
             run(c)
